@@ -64,6 +64,10 @@ pub struct IndSys {
 	/// one more state-dependent symbol: the next candle of a deterministic "volatile" stream (golden-ratio
 	/// Weyl sequence: every step a new value, no two alike); free to start right after c0 and to continue
 	pub volatile: bool,
+	/// values oracle only: the first candle fed may differ from the construction candle ("created from v"
+	/// must already be the state "v has been seen forever"; the signal detectors start from neutral seeds
+	/// by convention, so the signal oracle keeps the prescribed first step)
+	pub first_free: bool,
 }
 
 #[derive(Clone)]
@@ -93,10 +97,14 @@ impl IndSys {
 			.iter()
 			.map(|c| (0..c.size().1.max(c.size().0) as usize).map(|_| SlotStats { buy: 0.into(), sell: 0.into(), silent: 0.into(), exempt: 0.into() }).collect())
 			.collect();
-		Self { name: name.to_string(), cfgs, c0s, alphabet, oracle, flat, stats, zigzag: false, volatile: false }
+		Self { name: name.to_string(), cfgs, c0s, alphabet, oracle, flat, stats, zigzag: false, volatile: false, first_free: false }
 	}
 	pub fn with_zigzag(mut self) -> Self {
 		self.zigzag = true;
+		self
+	}
+	pub fn with_first_free(mut self) -> Self {
+		self.first_free = true;
 		self
 	}
 	pub fn with_volatile(mut self) -> Self {
@@ -178,7 +186,7 @@ impl System for IndSys {
 	fn actions(&self, s: &IState, depth: u32) -> Vec<(usize, u8)> {
 		// prescribed use of the API: the instance is created from its first input, which is then also
 		// the first value fed to `next` (C08 is about that); so the stream always starts with c0
-		if depth == 0 {
+		if depth == 0 && !(self.first_free && self.oracle == Oracle::Values) {
 			return vec![(self.alphabet.len() + 2, 0)];
 		}
 		// absolute symbols plus two STATE-DEPENDENT ones: the previous candle shifted up / down by 1
